@@ -149,7 +149,11 @@ pub struct SlotObs {
 }
 #[derive(Clone, Debug, PartialEq, Default)]
 pub struct Obs {
+    /// raw content of the active slot (state, used for the canonical key and transition oracles)
     pub slot: Option<SlotObs>,
+    /// what a sender is handed at this instant: the real hand-out function (`cached_path`/`path`
+    /// go through `PathSetHandle::try_unexpired_active_path`)
+    pub handed: Option<SlotObs>,
     /// (universe id or 99, expiry, reliability score at the instant) in cache order
     pub cache: Vec<(usize, Option<u32>, f32)>,
     pub next_refetch: i64,
@@ -167,7 +171,8 @@ impl Obs {
         let nm = |i: usize| UNIVERSE.get(i).map(|d| d.name).unwrap_or("??");
         json!({
             "t": now - T0,
-            "send": self.slot.as_ref().map(|s| json!({"path": s.id.map(nm), "expires_in": s.expiry.map(|e| e as i64 - now as i64)})),
+            "send": self.handed.as_ref().map(|s| json!({"path": s.id.map(nm), "expires_in": s.expiry.map(|e| e as i64 - now as i64)})),
+            "slot": self.slot.as_ref().map(|s| json!({"path": s.id.map(nm), "expires_in": s.expiry.map(|e| e as i64 - now as i64)})),
             "cache": self.cache.iter().map(|(i, e, s)| json!([nm(*i), e.map(|e| e as i64 - now as i64), (*s * 1000.0).round() / 1000.0])).collect::<Vec<_>>(),
             "next_refetch_in": self.next_refetch - now as i64,
             "failed_attempts": self.failed,
@@ -315,15 +320,18 @@ impl World {
 
     pub fn observe(&self) -> Obs {
         let now = self.now;
-        let slot = self.pr.active().map(|p| SlotObs {
+        let mk = |p: sciparse::path::ScionPath| SlotObs {
             id: self.fps.get(&p.fingerprint()).copied(),
             expiry: p.expiration(),
             endpoints_ok: p.src_ia() == ia(SRC) && p.dst_ia() == ia(DST),
             has_meta: p.metadata().is_some(),
-        });
+        };
+        let slot = self.pr.active().map(mk);
+        let handed = self.pr.handed_out(at(now)).map(mk);
         let cache = self.pr.cached(at(now)).into_iter().map(|(fp, e, s)| (self.fps.get(&fp).copied().unwrap_or(99), e, s)).collect();
         Obs {
             slot,
+            handed,
             cache,
             next_refetch: secs(self.pr.next_refetch()),
             failed: self.pr.failed_attempts(),
@@ -391,8 +399,8 @@ impl World {
         let now = self.now;
         let late = if self.late_used { "+late-tick" } else { "" };
         let failed = o.failed > 0;
-        // ---- C05 ----
-        if let Some(s) = &o.slot {
+        // ---- C05 ---- (judged on what a sender is handed)
+        if let Some(s) = &o.handed {
             match s.id {
                 None => self.push("C05", "served-path-not-from-any-lookup".into(), "the slot holds a path whose fingerprint no lookup ever returned".into()),
                 Some(id) => {
@@ -424,8 +432,8 @@ impl World {
         } else if self.mem.last_lookup_useful == Some(false) && o.err.is_none() {
             self.push("C05", "no-error-after-all-paths-rejected".into(), "no path to hand out after a lookup without acceptable path, but no error is recorded for the caller".into());
         }
-        // ---- C06 ----
-        if let Some(s) = &o.slot {
+        // ---- C06 ---- (judged on what a sender is handed)
+        if let Some(s) = &o.handed {
             if let Some(e) = s.expiry {
                 if e <= now {
                     let c = format!("expired-slot-between-ticks-after-{}-refetch{late}", if failed { "failed" } else { "successful" });
